@@ -185,8 +185,76 @@ pub fn via_go(run: &'static Run) -> (u64, u64) {
             run.violation("go-with-clocks-failed", format!("go-with-clocks-blocked|rem {rem} overhead {oh}"), J::obj(vec![("kind", J::s("clock-via-go")), ("overhead_ms", J::i(oh)), ("line", J::s(format!("(family for remaining {rem})")))]), "the command loop blocked or the helper thread died".into());
         }
     });
+    // the same clock situation phrased in every field order (and with extra blanks / a ponder-less `infinite`-free
+    // mix of optional fields): the limits must not depend on the phrasing
+    {
+        let fields = ["wtime 1000", "btime 300000", "winc 100", "binc 7000", "movestogo 3", "depth 1"];
+        let mut perms: Vec<Vec<usize>> = vec![];
+        fn permute(k: usize, cur: &mut Vec<usize>, used: &mut [bool], out: &mut Vec<Vec<usize>>) {
+            if cur.len() == k {
+                out.push(cur.clone());
+                return;
+            }
+            for i in 0..k {
+                if !used[i] {
+                    used[i] = true;
+                    cur.push(i);
+                    permute(k, cur, used, out);
+                    cur.pop();
+                    used[i] = false;
+                }
+            }
+        }
+        permute(fields.len(), &mut vec![], &mut [false; 6], &mut perms);
+        let chunks: Vec<Vec<Vec<usize>>> = perms.chunks(45).map(|c| c.to_vec()).collect();
+        par_for(chunks.len(), |ci| {
+            let chunk = chunks[ci].clone();
+            let work = move || {
+                let mut d = Drv::new(1).unwrap();
+                let _ = d.send("setoption name Move Overhead value 10");
+                for white in [true, false] {
+                    let _ = d.send(if white { "position fen 4k3/8/8/8/8/8/4P3/4K3 w - - 0 1" } else { "position fen 4k3/4p3/8/8/8/8/8/4K3 b - - 0 1" });
+                    let mut reference: Option<(Duration, Duration)> = None;
+                    for perm in &chunk {
+                        for sep in [" ", "  "] {
+                            let line = format!("go{sep}{}", perm.iter().map(|i| fields[*i]).collect::<Vec<_>>().join(sep));
+                            n.fetch_add(1, Ordering::Relaxed);
+                            crate::verif_hooks::take_limits();
+                            let case = J::obj(vec![("kind", J::s("clock-via-go")), ("overhead_ms", J::i(10)), ("white_to_move", J::Bool(white)), ("line", J::s(line.clone()))]);
+                            if let Err(e) = d.send(&line) {
+                                run.violation("go-with-clocks-failed", format!("go-with-clocks-failed|{line}"), case, format!("`{line}`: {e}"));
+                                return;
+                            }
+                            let lim = crate::verif_hooks::take_limits();
+                            if d.wait_search(std::time::Duration::from_secs(60)) != Wait::Finished {
+                                run.violation("go-with-clocks-failed", format!("go-with-clocks-search|{line}"), case, "the search did not finish".into());
+                                return;
+                            }
+                            d.take();
+                            let Some(l) = lim.last().copied() else { continue };
+                            let (rem, oh) = if white { (1000u64, 10u64) } else { (300_000, 10) };
+                            if l.1.as_micros() as u64 > (rem - oh) * 1000 / 2 + 1000 {
+                                run.violation("hard-limit-too-large", format!("hard-limit-via-go|white {white} `{line}`"), case.clone(), format!("white to move {white}, `{line}`: hard limit {:?} exceeds half of the mover's remaining time ({} ms)", l.1, (rem - oh) / 2));
+                            }
+                            match reference {
+                                None => reference = Some(l),
+                                Some(r) if r != l => {
+                                    run.violation("limits-depend-on-phrasing", format!("limits-depend-on-phrasing|white {white} `{line}`"), case, format!("white to move {white}: `{line}` gives limits {:?}, another order of the same fields gave {:?}", l, r));
+                                    return;
+                                }
+                                _ => {}
+                            }
+                        }
+                    }
+                }
+            };
+            if crate::util::with_timeout(300, work).is_none() {
+                run.violation("go-with-clocks-failed", format!("go-with-clocks-blocked|permutation chunk {ci}"), J::obj(vec![("kind", J::s("clock-via-go")), ("overhead_ms", J::i(10)), ("line", J::s("(field-order family)"))]), "the command loop blocked or the helper thread died".into());
+            }
+        });
+    }
     let a = n.load(Ordering::Relaxed);
-    run.family("CLOCK-VIA-GO", &format!("remaining {:?} ms x overhead {{0,10,1000}} (<= remaining/2, set through setoption) x side to move x increment {{0,100,5000}} x movestogo {{none,1,3,40}} x other side's clock {{absent, huge, tiny}}: sent as `go wtime .. btime .. depth 1` to the real command loop; limits read through hook H5", rems), a, a, true, "");
+    run.family("CLOCK-VIA-GO", &format!("remaining {:?} ms x overhead {{0,10,1000}} (<= remaining/2, set through setoption) x side to move x increment {{0,100,5000}} x movestogo {{none,1,3,40}} x other side's clock {{absent, huge, tiny}}: sent as `go wtime .. btime .. depth 1` to the real command loop; limits read through hook H5; plus one situation phrased in all 720 orders of its six fields, with single and double blanks, for both sides", rems), a, a, true, "");
     (a, a)
 }
 
